@@ -515,6 +515,7 @@ def check_sequence(ctx, FB, exp, rows):
                 u = m.call_fn(ty + "::new", [])
                 ev = Env(FB)
                 applied = {}
+                first_dirty = {}
                 for _rep in range(reps):
                     for sname, fn in order:
                         if not sname.startswith("set_") or sname[4:] not in fns:
@@ -523,7 +524,11 @@ def check_sequence(ctx, FB, exp, rows):
                         if row is None or row["kind"] in ("ArrayOfStruct", "GuidArrayUsingEnum"):
                             continue
                         args = [ev.value(t) for t in fn["inputs"][1:]]
+                        d_before = snapshot(u)[2] if not otag else None
                         m.call_fn(fn["path"], [u] + args)
+                        if not otag:
+                            d_after = snapshot(u)[2]
+                            first_dirty[sname[4:]] = [k for k in range(len(d_after) * 32) if bit(d_after, k) and not bit(d_before, k)]
                         applied[sname[4:]] = (args, row)  # the last value set is the one a getter must return
                 items = [(f, a, r) for f, (a, r) in applied.items()]
                 for field, args, row in items:
@@ -540,6 +545,29 @@ def check_sequence(ctx, FB, exp, rows):
                 if not otag:
                     # the fully populated object on the wire (every simple field present and dirty, so every block position is exercised)
                     wire_form(ctx, Mini(FB, "wow_world_messages"), u, exp, kind, P, ty, f"{exp}|{kind}|full", what=" of an object with every simple typed field set")
+                    # setting a field that already holds a value: after dirty_reset, (a) the same value again must make the field dirty
+                    # again, (b) another value must replace the stored one (a setter may not consult what is stored)
+                    m.call_fn(ty + "::dirty_reset", [u])
+                    ev2 = Env(FB)
+                    ev2.n = 500000
+                    for field, args, row in items:
+                        culprits = [f for f, _a, r2 in items if f != field and r2["offset"] < row["offset"] + row["size"] and row["offset"] < r2["offset"] + r2["size"]]
+                        if culprits:
+                            continue
+                        sfn = fns["set_" + field]
+                        m.call_fn(sfn["path"], [u] + list(args))
+                        _v, _h, dirty = snapshot(u)
+                        words = first_dirty.get(field, [])  # the words this setter marked when the field was set for the first time
+                        if not all(bit(dirty, k) for k in words):
+                            ctx.violate("um.sequence", f"{exp}|{kind}|{field}|reset-same", f"{exp} Update{kind}: after dirty_reset, set_{field} with the value the field already holds leaves the field clean "
+                                        f"(dirty bits of words {[k for k in words if not bit(dirty, k)]} are not set): the update is never sent", sfn["file"], sfn["line"])
+                        new = [ev2.value(t) for t in sfn["inputs"][1:]]
+                        m.call_fn(sfn["path"], [u] + new)
+                        res = Mini(FB, "wow_world_messages").call_fn(fns[field]["path"], [u])
+                        want = new[0] if len(new) == 1 else tuple(new)
+                        if not (isinstance(res, tuple) and res[0] == "Some" and equalish(res[1], want)):
+                            ctx.violate("um.sequence", f"{exp}|{kind}|{field}|reset-other", f"{exp} Update{kind}: set_{field} on a field that already holds a value does not store the new value: {field}() returns {show(res)}",
+                                        sfn["file"], sfn["line"])
         except (Unsupported, Panic) as e:
             ctx.violate("um.sequence", f"{exp}|{kind}|shape", f"{exp} Update{kind}: sequence interpretation failed — review ({e})")
     return n
